@@ -72,7 +72,7 @@ partial def readTree : List String → Option (Json × List String)
           | kh :: ts => do
             let key ← unhexB kh
             let (v, ts) ← readTree ts
-            members k ts (insert key v acc)
+            members k ts (insert (cstr key) v acc)   -- set(key.c_str(), v)
           | [] => none
       let (kvs, ts) ← members n rest []
       pure (.obj kvs, ts)
